@@ -16,10 +16,34 @@ inductive Blk where
 def IND : Char := Char.ofNat 14
 def DED : Char := Char.ofNat 15
 
+/-- first characters of a line that leave every keyword-led, marker and container rule out of the race (`plainStart`
+without the requirement that the character itself be plain: a backslash qualifies) -/
+def starterOK (c : Char) : Bool :=
+  blockChoosesLine c && c != Char.ofNat 14 && c != Char.ofNat 15 &&
+  (["conclusions_marker", "attachment_marker", "body_marker", "preface", "preamble", "conclusions", "attachments",
+     "introduction", "background", "arguments_marker", "remedies", "motivation", "decision", "remedies_marker",
+     "motivation_marker", "decision_marker"].all
+    fun r => !mayStart aknExec 100 (.ref r) (some c) && (aknExec.lookup r).isSome)
+
+theorem starterOK_parts {c : Char} (h : starterOK c = true) :
+    blockChoosesLine c = true ∧ c ≠ Char.ofNat 14 ∧ c ≠ Char.ofNat 15 ∧
+    ∀ r ∈ ["conclusions_marker", "attachment_marker", "body_marker", "preface", "preamble", "conclusions", "attachments",
+     "introduction", "background", "arguments_marker", "remedies", "motivation", "decision", "remedies_marker",
+     "motivation_marker", "decision_marker"],
+      mayStart aknExec 100 (.ref r) (some c) = false ∧ (aknExec.lookup r).isSome = true := by
+  simp only [starterOK, Bool.and_eq_true, bne_iff_ne, ne_eq, List.all_eq_true, Bool.not_eq_true'] at h
+  obtain ⟨⟨⟨h1, h3⟩, h4⟩, h5⟩ := h
+  exact ⟨h1, h3, h4, fun r hr => h5 r hr⟩
+
+theorem starterOK_of_plainStart {c : Char} (h : plainStart c = true) : starterOK c = true := by
+  obtain ⟨h1, _, h3, h4, h5⟩ := plainStart_parts h
+  simp only [starterOK, Bool.and_eq_true, bne_iff_ne, ne_eq, List.all_eq_true, Bool.not_eq_true']
+  exact ⟨⟨⟨h1, h3⟩, h4⟩, fun r hr => h5 r hr⟩
+
 mutual
 def AtBlk (inp : Array Char) : Nat → Blk → Nat → Prop
-  | p, .line l, q => (∃ c r, l = c :: r ∧ plainStart c = true) ∧ AtPlain inp p l ∧
-      ∃ k, NlRun inp (p + l.length) (k + 1) ∧ q = p + l.length + (k + 1)
+  | p, .line _, q => ∃ c, inp[p]? = some c ∧ starterOK c = true ∧ p < q ∧
+      ∃ t, Lim aknExec inp (.ref "line") p (.ok t) ∧ t.stop = q
   | p, .nest bs, q => inp[p]? = some IND ∧ inp[p + 1]? = some '\n' ∧ inp[p + 2]? ≠ some '\n' ∧ bs ≠ [] ∧
       ∃ m, AtBlks inp (p + 2) bs m ∧ inp[m]? = some DED ∧ ∃ k, NlRun inp (m + 1) (k + 1) ∧ q = m + 1 + (k + 1)
 def AtBlks (inp : Array Char) : Nat → List Blk → Nat → Prop
@@ -149,8 +173,8 @@ theorem hier_block_element_fails_at_ded (m : Nat) (h0 : inp[m]? = some DED) (h1 
 
 theorem atBlk_progress (inp : Array Char) : ∀ (b : Blk) (p q : Nat), AtBlk inp p b q → p < q
   | .line l, p, q, h => by
-    obtain ⟨_, _, k, _, hq⟩ := h
-    omega
+    obtain ⟨_, _, _, hlt, _⟩ := h
+    exact hlt
   | .nest bs, p, q, h => by
     obtain ⟨_, _, _, _, m, hbs, _, k, _, hq⟩ := h
     have : p + 2 ≤ m := atBlks_mono inp bs (p + 2) m hbs
@@ -170,11 +194,9 @@ mutual
 theorem block_element_at (inp : Array Char) : ∀ (b : Blk) (p q : Nat), AtBlk inp p b q →
     ∃ t, Lim aknExec inp (.ref "block_element") p (.ok t) ∧ t.stop = q
   | .line l, p, q, h => by
-    obtain ⟨⟨c, r, rfl, hs⟩, hp, k, hn, hq⟩ := h
-    obtain ⟨hb, _, _, h15, _⟩ := plainStart_parts hs
-    subst hq
-    obtain ⟨tl, hline, htl⟩ := line_run p c r hp h15 k hn
-    exact ⟨tl, block_rules_follow_line inp p c hp.1 hb tl hline "block_element" (by simp [blockLevelRules]), htl⟩
+    obtain ⟨c, hc0, hs, _, tl, hline, htl⟩ := h
+    have hb := (starterOK_parts hs).1
+    exact ⟨tl, block_rules_follow_line inp p c hc0 hb tl hline "block_element" (by simp [blockLevelRules]), htl⟩
   | .nest bs, p, q, h => by
     obtain ⟨h0, h1, h2, hne, m, hbs, hm0, k, hrun, hq⟩ := h
     have hm1 : inp[m + 1]? = some '\n' := hrun.1
@@ -217,12 +239,12 @@ theorem hier_block_element_at (b : Blk) (p q : Nat) (h : AtBlk inp p b q) :
   refine ⟨t, ?_, hts⟩
   cases b with
   | line l =>
-    obtain ⟨⟨c, r, rfl, hs⟩, hp, _⟩ := h
-    have hb := (plainStart_parts hs).1
+    obtain ⟨c, hc0, hs, _⟩ := h
+    have hb := (starterOK_parts hs).1
     simp only [blockChoosesLine, ruleChooses, Bool.and_eq_true, beq_iff_eq] at hb
     obtain ⟨⟨⟨⟨_, _⟩, _⟩, hh⟩, _⟩ := hb
-    exact lim_rule_first_candidate akn_wf 100 p (le_size_of_get hp.1) "hier_block_element" "block_element" _ _ hh.1
-      (by rw [hp.1]; exact hh.2) ht
+    exact lim_rule_first_candidate akn_wf 100 p (le_size_of_get hc0) "hier_block_element" "block_element" _ _ hh.1
+      (by rw [hc0]; exact hh.2) ht
   | nest bs =>
     have h0 := h.1
     have hh := hbe_chooses_be_at_ind
@@ -248,9 +270,21 @@ theorem bodyItem_at (b : Blk) (p q : Nat) (h : AtBlk inp p b q) :
     ∃ t, Lim aknExec inp bodyItem p (.ok t) ∧ t.stop = q := by
   cases b with
   | line l =>
-    obtain ⟨⟨c, r, rfl, hs⟩, hp, k, hn, hq⟩ := h
-    subst hq
-    exact bodyItem_line_run p c r hp hs k hn
+    obtain ⟨t, ht, hts⟩ := hier_block_element_at (.line l) p q h
+    obtain ⟨c, hc0, hs, _⟩ := h
+    obtain ⟨_, h14, _, hr⟩ := starterOK_parts hs
+    have hind : Lim aknExec inp (.seq (.cons ["indent"] (.ref "indent")
+        (.cons ["content"] (.plus (.ref "hier_block_element")) (.cons ["dedent"] (.ref "dedent") .nil)))) p .fail := by
+      refine lim_seq (limS_cons_fail (lim_ref lk_indent (lim_seq (limS_cons_fail (lim_lit_fail ?_)))))
+      have : (some c == some (Char.ofNat 14)) = false := by simpa using h14
+      simp [litMatch, hc0, this]
+    have hhbi : Lim aknExec inp (.ref "hier_block_indent") p (.ok t) :=
+      lim_ref lk_hbi (lim_choice (limC_cons_fail hind (limC_cons_ok ht)))
+    have hc1 := lim_not_fail (rule_fails_at "conclusions_marker" p c hc0 (hr _ (by simp)).1 (hr _ (by simp)).2)
+    have hc2 := lim_not_fail (rule_fails_at "attachment_marker" p c hc0 (hr _ (by simp)).1 (hr _ (by simp)).2)
+    refine ⟨_, lim_seq (limS_cons_ok hc1 (limS_cons_ok (by simpa using hc2) (limS_cons_ok (by simpa using hhbi) limS_nil))), ?_⟩
+    cases t with
+    | node a b c' d e => simp only [Tree.stop] at hts; simp [Tree.stop, hts]
   | nest bs =>
     obtain ⟨h0, h1, h2, hne, m, hbs, hm0, k, hrun, hq⟩ := h
     have hm1 : inp[m + 1]? = some '\n' := hrun.1
@@ -300,11 +334,11 @@ theorem starter_fails_blocks (r : String) (hr : r ∈ ["body_marker", "preface",
     obtain ⟨mid, hb, _⟩ := h
     cases b with
     | line l =>
-      obtain ⟨⟨c, r', rfl, hs⟩, hp, _⟩ := hb
-      have := (plainStart_parts hs).2.2.2.2 r (by
+      obtain ⟨c, hc0, hs, _⟩ := hb
+      have := (starterOK_parts hs).2.2.2 r (by
         simp only [List.mem_cons, List.mem_nil_iff, or_false] at hr ⊢
         rcases hr with rfl | rfl | rfl | rfl | rfl <;> simp)
-      exact rule_fails_at r p c hp.1 this.1 this.2
+      exact rule_fails_at r p c hc0 this.1 this.2
     | nest bs' =>
       exact fails_at_ind r (by
         simp only [List.mem_cons, List.mem_nil_iff, or_false] at hr ⊢
@@ -368,6 +402,64 @@ theorem nested_doc_never_refused (root : String) (hroot : root ∈ ["doc", "stat
   have := eval_fuel_irrelevant aknExec inp (.ref root) 0 n (max n n0) hd
     (by rw [h0 _ (Nat.le_max_right n n0)]; trivial)
   rw [this, h0 _ (Nat.le_max_right n n0)]
+
+
+/-! ## the two kinds of line for which `AtBlk … (.line l) …` is established -/
+
+/-- a plain line, its newline and `k` blank lines -/
+theorem atBlk_plain_line (p : Nat) (c : Char) (r : List Char) (h : AtPlain inp p (c :: r)) (hs : plainStart c = true)
+    (k : Nat) (hn : NlRun inp (p + (c :: r).length) (k + 1)) :
+    AtBlk inp p (.line (c :: r)) (p + (c :: r).length + (k + 1)) := by
+  obtain ⟨t, ht, hts⟩ := line_run p c r h (plainStart_parts hs).2.2.2.1 k hn
+  exact ⟨c, h.1, starterOK_of_plainStart hs, by simp; omega, t, ht, hts⟩
+
+theorem starterOK_backslash : starterOK '\\' = true := by decide +kernel
+
+/-- `line` on a fully escaped line followed by `k + 1` newlines -/
+theorem esc_line_run (p : Nat) (c : Char) (w : List Char) (h : AtEsc inp p (c :: w))
+    (k : Nat) (hn : NlRun inp (p + 2 * (c :: w).length) (k + 1)) :
+    ∃ t, Lim aknExec inp (.ref "line") p (.ok t) ∧ t.stop = p + 2 * (c :: w).length + (k + 1) := by
+  have hend := atEsc_end inp (c :: w) p h
+  obtain ⟨te, hte, hts⟩ := eol_run (p + 2 * (c :: w).length) k hn
+  have hbs : ('\\' : Char) ≠ Char.ofNat 15 := by decide
+  have hded : Lim aknExec inp (.notP (.ref "dedent")) p (.ok (Tree.leaf p p)) := by
+    refine lim_not_fail (lim_ref lk_dedent (lim_seq (limS_cons_fail (lim_lit_fail ?_))))
+    have : (some '\\' == some (Char.ofNat 15)) = false := by decide
+    simp [litMatch, h.1, this]
+  have hfail : Lim aknExec inp (.ref "inline") (p + 2 * (c :: w).length) .fail := inline_fails_at_newline inp _ hend
+  have loop : ∀ (w' : List Char) (q : Nat) (acc : List Tree), AtEsc inp q w' → q + 2 * w'.length = p + 2 * (c :: w).length →
+      1 ≤ acc.length + w'.length →
+      ∃ out, LimR aknExec inp (.ref "inline") p q acc 1 (.ok (.node p (p + 2 * (c :: w).length) [] [] out)) := by
+    intro w'
+    induction w' with
+    | nil =>
+      intro q acc _ hq hlen
+      have hq' : q = p + 2 * (c :: w).length := by simpa using hq
+      subst hq'
+      exact ⟨acc.reverse, limR_stop hfail (by simpa using hlen)⟩
+    | cons c' r ih =>
+      intro q acc h' hq _
+      have hin : Lim aknExec inp (.ref "inline") q (.ok (escNode q)) :=
+        ⟨12, fun n hn' => by
+          obtain ⟨m, rfl⟩ : ∃ m, n = m + 12 := ⟨n - 12, by omega⟩
+          exact inline_reads_escape inp q c' m h'.1 h'.2.1 h'.2.2.1⟩
+      obtain ⟨out, hout⟩ := ih (q + 2) (escNode q :: acc) h'.2.2.2 (by simp only [List.length_cons] at hq ⊢; omega) (by simp; omega)
+      exact ⟨out, limR_step hin (by simp [escNode, Tree.stop]) (by simpa [escNode, Tree.stop] using hout)⟩
+  obtain ⟨out, hloop⟩ := loop (c :: w) p [] h rfl (by simp)
+  have hplus : Lim aknExec inp (.plus (.ref "inline")) p (.ok (.node p (p + 2 * (c :: w).length) [] [] out)) := lim_plus hloop
+  refine ⟨_, lim_ref lk_line (lim_typed (lim_seq (limS_cons_ok hded (limS_cons_ok (by simpa using hplus)
+    (limS_cons_ok (by simpa [Tree.stop] using hte) limS_nil))))), ?_⟩
+  cases te with
+  | node a b c' d e' =>
+    simp only [Tree.stop] at hts
+    simp [Tree.stop, Tree.addType, hts]
+
+/-- a fully escaped line, its newline and `k` blank lines -/
+theorem atBlk_esc_line (p : Nat) (c : Char) (w : List Char) (l : List Char) (h : AtEsc inp p (c :: w))
+    (k : Nat) (hn : NlRun inp (p + 2 * (c :: w).length) (k + 1)) :
+    AtBlk inp p (.line l) (p + 2 * (c :: w).length + (k + 1)) := by
+  obtain ⟨t, ht, hts⟩ := esc_line_run p c w h k hn
+  exact ⟨'\\', h.1, starterOK_backslash, by simp; omega, t, ht, hts⟩
 
 
 end Bluebell
